@@ -4,22 +4,42 @@
 
 package metric
 
-//@ # C16: rows outside the accepted write window [now-behind, now+ahead] are marked, nothing else is touched
+//@ # C16: rows outside the accepted write window [now-behind, now+ahead] are dropped and nothing else is.
+//@ # A batch object is pooled: a slot may have held a marked row during an earlier use, so TryAppend must hand out
+//@ # unmarked rows (unmarked), and the window check marks exactly the rows outside the window.
+//@ predicate batchOK(br *BrokerBatchRows) bool = br.rowCount >= 0 && br.rowCount <= len(br.rows)
+//@ predicate unmarked(br *BrokerBatchRows) bool = forall(i, 0, br.rowCount, !br.rows[i].IsOutOfTimeRange)
+//@ func BrokerBatchRows.reset
+//@   prop C16
+//@   modifies br.rowCount
+//@   ensures br.rowCount == 0
+//@ end
+//@ # the decoder callback may do anything to the one row it is given, and nothing to the batch
+//@ func BrokerBatchRows.TryAppend@appendFunc
+//@   modifies row.buffer, row.m, row.shardIdx, row.IsOutOfTimeRange
+//@ end
+//@ func BrokerBatchRows.TryAppend
+//@   prop C16
+//@   arith math
+//@   requires batchOK(br) && unmarked(br) && appendFunc != nil
+//@   modifies br.rows, br.rowCount, br.rows[*]
+//@   ensures[appended_rows_carry_no_out_of_window_mark] batchOK(br) && unmarked(br)
+//@   ensures[one_more_row_exactly_on_success] (result == nil ==> br.rowCount == old(br.rowCount) + 1) && (result != nil ==> br.rowCount == old(br.rowCount))
+//@ end
 //@ func BrokerBatchRows.EvictOutOfTimeRange
 //@   prop C16
 //@   arith math
-//@   requires br.rowCount >= 0 && br.rowCount <= len(br.rows) && behind <= 1099511627776 && ahead <= 1099511627776
+//@   requires batchOK(br) && unmarked(br) && behind <= 1099511627776 && ahead <= 1099511627776
 //@   modifies br.rows[*]
 //@   ensures[count_of_newly_checked_rows] evicted >= 0 && evicted <= br.rowCount
-//@   ensures[exactly_the_rows_outside_the_window_are_marked] forall(i, 0, br.rowCount, br.rows[i].IsOutOfTimeRange == (old(br.rows[i].IsOutOfTimeRange) || (behind > 0 && metricTs(br.rows[i].m) < clockMs() - behind) || (ahead > 0 && metricTs(br.rows[i].m) > clockMs() + ahead)))
+//@   ensures[exactly_the_rows_outside_the_window_are_marked] forall(i, 0, br.rowCount, br.rows[i].IsOutOfTimeRange == ((behind > 0 && metricTs(br.rows[i].m) < clockMs() - behind) || (ahead > 0 && metricTs(br.rows[i].m) > clockMs() + ahead)))
 //@   ensures[rows_are_not_changed_otherwise] forall(i, 0, len(br.rows), br.rows[i].m == old(br.rows[i].m) && br.rows[i].shardIdx == old(br.rows[i].shardIdx) && br.rows[i].buffer == old(br.rows[i].buffer)) && all(i, (i >= br.rowCount && i < len(br.rows)) ==> br.rows[i].IsOutOfTimeRange == old(br.rows[i].IsOutOfTimeRange))
 //@   loop 1 invariant idx >= 0 && idx <= br.rowCount && evicted >= 0 && evicted <= idx && now == clockMs()
-//@   loop 1 invariant forall(i, 0, idx, br.rows[i].IsOutOfTimeRange == (old(br.rows[i].IsOutOfTimeRange) || (behind > 0 && metricTs(br.rows[i].m) < clockMs() - behind) || (ahead > 0 && metricTs(br.rows[i].m) > clockMs() + ahead)))
+//@   loop 1 invariant forall(i, 0, idx, br.rows[i].IsOutOfTimeRange == ((behind > 0 && metricTs(br.rows[i].m) < clockMs() - behind) || (ahead > 0 && metricTs(br.rows[i].m) > clockMs() + ahead)))
 //@   loop 1 invariant forall(i, 0, len(br.rows), br.rows[i].m == old(br.rows[i].m) && br.rows[i].shardIdx == old(br.rows[i].shardIdx) && br.rows[i].buffer == old(br.rows[i].buffer)) && all(i, (i >= idx && i < len(br.rows)) ==> br.rows[i].IsOutOfTimeRange == old(br.rows[i].IsOutOfTimeRange))
 //@ end
 
 //@ # ---- shard routing: shard = jump hash of the row's own tags hash, below the shard count ----------------
-//@ predicate batchOK(br *BrokerBatchRows) bool = br.rowCount >= 0 && br.rowCount <= len(br.rows)
 //@ predicate shardItrOK(itr *BrokerBatchShardIterator) bool = itr.batch != nil && batchOK(itr.batch) && itr.groupStart >= 0 && itr.groupStart <= itr.groupEnd && itr.groupEnd <= itr.batch.rowCount
 //@ func BrokerBatchShardIterator.HasRowsForNextShard
 //@   prop C16
